@@ -139,3 +139,44 @@ case(O + "use_prop", params={"p": Ref("OPair")}, returns=INT,
      ensures={"big": "implies(p.a > 10, result == p.a + p.b)", "small": "implies(p.a <= 10, result == 0)"},
      canaries={"always": "result == p.a + p.b", "zero": "result == 0"},
      gen=lambda rng: {"a": rng.randint(0, 20), "b": rng.randint(1, 3)}, build=lambda d: {"p": M.OPair(d["a"], d["b"])})
+
+# ---- enum members as values -------------------------------------------------------------------------------------------------------------------
+from pyvc.api import STR, Enum  # noqa: E402
+
+case(O + "pick_backend", params={"version": INT, "name": Opt(STR)}, returns=STR,
+     raises={"ValueError": "(version != 1 and version != 2) or (name is not None and name != 'fast' and name != 'safe')"},
+     ensures={"default1": "implies(version == 1 and name is None, result == 'safe1')", "default2": "implies(version == 2 and name is None, result == 'fast2')",
+              "bad": "implies(version == 1 and name == 'fast', result == 'unsupported')", "explicit": "implies(version == 2 and name == 'safe', result == 'safe2')"},
+     canaries={"always-safe": "result == 'safe1' or result == 'safe2'", "never-bad": "result != 'unsupported'"},
+     gen=lambda rng: {"version": rng.choice([1, 2, 2, 3]), "name": rng.choice([None, "fast", "safe", "x"])})
+case(O + "backend_name", params={"b": Enum(O + "OBackend")}, returns=STR,
+     ensures={"v": "result == ite(b == OBackend.FAST, 'FAST', 'SAFE')", "val": "iff(b.value == 'fast', result == 'FAST')"},
+     canaries={"fast": "result == 'FAST'"},
+     gen=lambda rng: {"b": rng.choice(["fast", "safe"])}, build=lambda d: {"b": M.OBackend(d["b"])})
+
+# ---- a Union-typed FIELD whose alternative the path condition fixes ------------------------------------------------------------------------------
+from pyvc.api import Set as _Set, TupleOf, Union  # noqa: E402
+
+cls("OSide", fields={"side1": Union(STR, TupleOf(STR))}, repo=O + "OSide")
+
+
+def mk_side(v):
+    return M.OSide(tuple(v) if isinstance(v, list) else v)
+
+
+case(O + "OSide.first_glyphs", params={"self": Ref("OSide")}, returns=TupleOf(STR),
+     ensures={"tup": "implies(isinstance(self.side1, tuple), result == self.side1)",
+              "str": "implies(isinstance(self.side1, str), len(result) == 1 and result[0] == self.side1)"},
+     canaries={"one": "len(result) == 1"},
+     gen=lambda rng: {"s": rng.choice(["a", ["x", "y"], []])}, build=lambda d: {"self": mk_side(d["s"])})
+case(O + "OSide.bases", params={"self": Ref("OSide"), "marks": _Set(STR)}, returns=TupleOf(STR), locals={},
+     ensures={"nomarks": "all(g not in marks for g in result)", "str": "implies(isinstance(self.side1, str), len(result) == 0)"},
+     canaries={"empty": "len(result) == 0"},
+     gen=lambda rng: {"s": rng.choice(["a", ["x", "y"], ["m", "x"]]), "marks": ["m"]}, build=lambda d: {"self": mk_side(d["s"]), "marks": set(d["marks"])})
+from pyvc.api import Dict as _Dict  # noqa: E402
+
+case(O + "side_in_marks", params={"p": Ref("OSide"), "marks": _Set(STR), "table": _Dict(STR, INT)}, returns=INT,
+     ensures={"tup": "implies(isinstance(p.side1, tuple), result == 0)", "miss": "implies(isinstance(p.side1, str) and p.side1 not in marks, result == 2)"},
+     canaries={"two": "result == 2", "zero": "result == 0"},
+     gen=lambda rng: {"s": rng.choice(["a", "m", ["x"]]), "marks": ["m"], "table": {"m": 5}},
+     build=lambda d: {"p": mk_side(d["s"]), "marks": set(d["marks"]), "table": d["table"]})
